@@ -31,6 +31,24 @@ PROPS["C18"] = {
     "note": "Custom ChildCount/Child functions are modelled by the finite tree they present (a non-well-founded presentation would not terminate in Go either). Pointer identity of nodes is modelled by value + position; the pointer-level identity Parent().Child(Index())==Node() is checked in-process by the harness.",
 }
 
+PROPS["C10"] = {
+    "modules": ["CM.Props.C10", "CM.Props.C07"],
+    "level": "proof",
+    "design_ref": "DESIGN.md §6 C10",
+    "technique": "Lean 4 theorems: Walk-driven renderer = recursive reading (render_eq_spec, via the C18 refinement) = flattened tokens of the documented kind->element mapping (render_eq_tokens); block join (renderAll_join); 3-way byte correspondence implementation / model / specification over all configurations",
+    "text": "Model.appendBlock is AppendBlock: the walk.go loop with preBlock/postBlock/preInline/postInline appending to dst, written function by function from html_renderer.go. render_eq_spec: for every tree, source and configuration (SoftBreakBehavior, IgnoreRaw, arbitrary FilterTag predicate, arbitrary reference map, arbitrary entity decoder) it appends exactly open ++ children ++ close read recursively; render_eq_tokens: that equals the flattening of Spec.toksNode, an independent reading of the documented mapping kind -> element using accessor-level functions only; renderAll_join: Render = blocks rendered separately joined by blank lines; refdef_renders_nothing. Determinism is functionality of the model. The model is tied to the code by comparing AppendBlock's bytes with the model's and the specification's on parsed and synthetic trees under all 30 configurations; determinism, tree/Source untouched and the block join are also checked in-process.",
+    "note": "html.UnescapeString, cases.Fold are parameters of the model (Ext); the driver receives, per tree, the table of html.UnescapeString over that tree's character-reference nodes computed by the real library. Slicing is total in the model; Go's spanSlice panics exactly outside Spec.spanValid (the RenderPre contract, monitored by C02's check). The explicit-stack DFS of appendAltText is modelled by its recursive equivalent.",
+}
+
+PROPS["C07"] = {
+    "modules": ["CM.Props.C07"],
+    "level": "proof",
+    "design_ref": "DESIGN.md §6 C07",
+    "technique": "Lean 4 theorem render_wellformed over the renderer model (tokens of the documented mapping are in the fixed vocabulary regenerated from the source, escaped, well nested), escaping lemmas over the regenerated escapeHTML table for all bytes, + recogniser oracle Spec.htmlWellFormed on the implementation's output + monitored parser contract Spec.safePre",
+    "text": "render_wellformed: for every tree, source, SoftBreakBehavior, reference map and entity decoder, with FilterTag unset and raw HTML ignored or absent, AppendBlock's output is dst ++ flat(tokens) where every start/end tag name is in the renderer's element set and every attribute name in its attribute set (both regenerated from html_renderer.go on every run), every text run and attribute value is free of < > \" ' with & only as the start of one of the renderer's own escapes (escapeHTML's cases are regenerated from the Go switch: escapeHTMLByte_shape is kernel-checked for all 256 bytes), copied character references have the form &[#A-Za-z0-9]+;, and tags are properly nested. Hypothesis on the tree: Spec.safePre (character-reference nodes span a reference, soft breaks span their line ending) - true of parser output, monitored on every generated tree. The implementation's bytes are additionally run through the Lean recogniser Spec.htmlWellFormed (injection generator + exhaustive short strings over the markup characters).",
+    "note": "The parser contract safePre is not yet a theorem about the parser model (not in Lean at this commit); it is monitored. The recogniser's language is slightly larger than the token theorem's (it accepts any &[#A-Za-z0-9]+; reference in text).",
+}
+
 MONITOR_NOTE = "No theorem about the parser model backs this property yet (the block/inline parser model is not in Lean at this commit): the property's statement is an executable Lean definition (lean/CM/Spec) evaluated by the Lean driver on every tree the real parser returns for the generated inputs. That is monitoring against a formal specification, not a proof; it is claimed as 'other'."
 
 def monitored(pid, spec, what):
